@@ -1692,20 +1692,45 @@ def limit_sides(check, prog):
                                   'outwards (%s %s 0)' % (
                                       WORD[sd], x.left.id, '>' if want_gt else '<'),
                                   loc_(x), fail_detail=ast.unparse(x))
-                if isinstance(x, ast.Call) and ast.unparse(x.func).endswith('clip') \
-                        and len(x.args) == 3:
-                    npeg += 1
-                    lo, hi = x.args[1], x.args[2]
+                fname = ast.unparse(x.func).split('.')[-1] \
+                    if isinstance(x, ast.Call) else ''
+                if fname in ('clip', 'maximum', 'minimum') and len(x.args) >= 2 and \
+                        sides_in(x):
 
                     def zero(a):
                         return isinstance(a, ast.Constant) and a.value == 0
-                    ok = (zero(lo) and not zero(hi)) if sd == 'L' else \
-                        (zero(hi) and not zero(lo))
+
+                    def unbounded(a, sign):
+                        # None, or +-inf on the right side
+                        if isinstance(a, ast.Constant) and a.value is None:
+                            return True
+                        src = ast.unparse(a).replace(' ', '')
+                        return src in (('numpy.inf', 'np.inf', 'inf') if sign > 0 else
+                                       ('-numpy.inf', '-np.inf', '-inf'))
+                    npeg += 1
+                    if fname == 'clip' and len(x.args) == 3:
+                        lo, hi = x.args[1], x.args[2]
+                        # numpy.clip(a, lo, hi) returns hi wherever lo > hi: the
+                        # open end must be one that cannot cross zero
+                        ok = (zero(lo) and unbounded(hi, +1)) if sd == 'L' else \
+                            (zero(hi) and unbounded(lo, -1))
+                        why = '%s: the other end of the clip is data (%s), and ' \
+                            'numpy.clip returns its upper end wherever the ends ' \
+                            'cross -- when every step component has one sign the ' \
+                            'pegged component stays outward, the step length ' \
+                            'becomes 0 and the fit stops where it is' % (
+                                ast.unparse(x)[:80],
+                                ast.unparse(hi if sd == 'L' else lo))
+                    else:
+                        ok = (fname == 'maximum') == (sd == 'L') and \
+                            any(zero(a) for a in x.args[:2])
+                        why = ast.unparse(x)[:100]
                     check.require(ok, 'L12-limit-sides',
                                   'mpfit.__init__ pegged-%s step clip' % WORD[sd],
                                   'the step of a parameter pegged at its %s bound is '
-                                  'clipped to point inwards' % WORD[sd], loc_(x),
-                                  fail_detail=ast.unparse(x)[:100])
+                                  'made to point inwards (max(step, 0) at a lower, '
+                                  'min(step, 0) at an upper bound)' % WORD[sd], loc_(x),
+                                  fail_detail=why)
     check.floor('pegged-parameter tests and clips', npeg, 4)
     # d. write-back onto a bound: index set and bound of one side
     nput = [0]
